@@ -969,6 +969,9 @@ func (p *Parser) arithmToken(r rune) token {
 }
 
 func (p *Parser) newLit(r rune) {
+	// Only advanceLitNone records the offset of an '=';
+	// do not let it leak into literals lexed in other states.
+	p.eqlOffs = -1
 	switch {
 	case r < utf8.RuneSelf:
 		p.litBs = p.litBuf[:1]
